@@ -5,6 +5,7 @@ import (
 	"fmt"
 	"testing"
 
+	"github.com/gnolang/gno/gno.land/pkg/gnoland"
 	"github.com/gnolang/gno/tm2/pkg/amino"
 	"github.com/gnolang/gno/tm2/pkg/crypto"
 	"github.com/gnolang/gno/tm2/pkg/crypto/multisig"
@@ -30,6 +31,7 @@ type c15Case struct {
 	Arg      int    `json:"arg"`
 	UseCall  bool   `json:"use_call"` // second kind of message: a realm call
 	OmitPubK bool   `json:"omit_pubkey"`
+	VestEnd  int64  `json:"vest_end"` // vesting of account 8 ends this many seconds after T0 (blocks run at 10, 15, 20, ...)
 }
 
 var c15Muts = []string{
@@ -39,23 +41,30 @@ var c15Muts = []string{
 }
 
 const c15Multi = 9
+const c15Vest = 8 // a vesting account (genesis schedule ending at T0+VestEnd seconds)
 
 type c15Env struct {
 	c     *ec.Chain
+	vest  ec.Key
 	keys  []ec.Key
 	sub   []ec.Key // multisig members
 	mpk   crypto.PubKey
 	maddr crypto.Address
 }
 
-func c15Setup() (*c15Env, error) {
-	e := &c15Env{keys: ec.Keys(4)}
+func c15Setup(vestEnd int64) (*c15Env, error) {
+	e := &c15Env{keys: ec.Keys(4), vest: ec.NewKey("vesting")}
 	e.sub = []ec.Key{ec.NewKey("m0"), ec.NewKey("m1"), ec.NewKey("m2")}
 	e.mpk = multisig.NewPubKeyMultisigThreshold(2, []crypto.PubKey{e.sub[0].Pub, e.sub[1].Pub, e.sub[2].Pub})
 	e.maddr = e.mpk.Address()
 	gen := ec.GenesisWithBalances(1e13, e.keys...)
 	gen.Balances = append(gen.Balances, gen.Balances[0])
 	gen.Balances[len(gen.Balances)-1].Address = e.maddr
+	if vestEnd <= 1 {
+		vestEnd = 2
+	}
+	gen.Balances = append(gen.Balances, gnoland.Balance{Address: e.vest.Addr, Amount: std.Coins{std.NewCoin("ugnot", 1e13)},
+		Vesting: &std.VestingSchedule{OriginalVesting: std.Coins{std.NewCoin("ugnot", 4e12)}, StartTime: ec.T0.Unix() + 1, EndTime: ec.T0.Unix() + vestEnd}})
 	c, _, err := ec.New(nil, gen, ec.Options{})
 	if err != nil {
 		return nil, err
@@ -70,9 +79,19 @@ func c15Setup() (*c15Env, error) {
 	return e, nil
 }
 
+func (e *c15Env) keyOf(i int) ec.Key {
+	if i == c15Vest {
+		return e.vest
+	}
+	return e.keys[i%len(e.keys)]
+}
+
 func (e *c15Env) addrOf(i int) crypto.Address {
 	if i == c15Multi {
 		return e.maddr
+	}
+	if i == c15Vest {
+		return e.vest.Addr
 	}
 	return e.keys[i%len(e.keys)].Addr
 }
@@ -97,7 +116,7 @@ func (e *c15Env) sign(tx std.Tx, i int, chainID string, num, seq uint64, members
 		}
 		return sig
 	}
-	k := e.keys[i%len(e.keys)]
+	k := e.keyOf(i)
 	s, _ := k.Priv.Sign(sb)
 	sig := std.Signature{Signature: s}
 	if withPub {
@@ -161,12 +180,15 @@ type c15Step struct {
 }
 
 func c15Exec(ctx *vk.Ctx, c c15Case) error {
-	e, err := c15Setup()
+	e, err := c15Setup(c.VestEnd)
 	if err != nil {
 		return err
 	}
 	ch := e.c
 	ctx.Class("mut=" + c.Mut)
+	for _, sg := range c.Signers {
+		ctx.ClassIf(sg == c15Vest, "vesting-signer")
+	}
 	// warm-up: advance signer sequences and (unless OmitPubK needs a stored key) register pubkeys
 	tsec := int64(10)
 	for w := 0; w < c.Warm; w++ {
@@ -181,7 +203,7 @@ func c15Exec(ctx *vk.Ctx, c c15Case) error {
 					return fmt.Errorf("harness: warm-up multisig tx rejected: %v", r.Error)
 				}
 			} else {
-				k := e.keys[s%len(e.keys)]
+				k := e.keyOf(s)
 				if r, _, err := ch.Send([]std.Msg{bank.MsgSend{FromAddress: k.Addr, ToAddress: e.keys[3].Addr, Amount: std.Coins{std.NewCoin("ugnot", 1)}}}, 10_000_000, 1_000_000, k); err != nil || r.Error != nil {
 					return fmt.Errorf("harness: warm-up tx rejected: %v %v", err, r.Error)
 				}
@@ -432,10 +454,11 @@ func (e *c15Env) mutate(tx *std.Tx, c c15Case, signers []int) bool {
 func TestC15_Signatures(t *testing.T) {
 	vk.Run(t, vk.Spec[c15Case]{
 		ID: "C15", Name: "TestC15_Signatures",
-		Rule: "rapid: a valid signed tx (1-2 signers out of 3 secp256k1 accounts and a 2-of-3 multisig account; bank sends and a realm call; pubkey embedded or omitted; 0-2 warm-up rounds advancing sequences) plus one of 18 mutations (signature/body/memo/fee bytes, chain id, account number, sequence +-1, swapped/dropped/extra/empty/foreign signatures, foreign pubkey, multisig k-1 / outsider / duplicated member); the mutated tx, its replay, the original and its replay are each delivered in their own block; non-trivial = a real mutation that was applicable to the drawn signer set",
+		Rule: "rapid: a valid signed tx (1-2 signers out of 3 secp256k1 accounts, a 2-of-3 multisig account and a vesting account whose schedule ends before, during or after the case; bank sends and a realm call; pubkey embedded or omitted; 0-2 warm-up rounds advancing sequences) plus one of 18 mutations (signature/body/memo/fee bytes, chain id, account number, sequence +-1, swapped/dropped/extra/empty/foreign signatures, foreign pubkey, multisig k-1 / outsider / duplicated member); the mutated tx, its replay, the original and its replay are each delivered in their own block; non-trivial = a real mutation that was applicable to the drawn signer set",
 		Draw: func(rt *rapid.T) c15Case {
 			c := c15Case{Mut: rapid.SampledFrom(c15Muts).Draw(rt, "mut"), Arg: rapid.IntRange(0, 1000).Draw(rt, "arg")}
-			pool := []int{0, 1, 2, c15Multi, c15Multi}
+			pool := []int{0, 1, 2, c15Multi, c15Multi, c15Vest, c15Vest}
+			c.VestEnd = rapid.SampledFrom([]int64{12, 17, 22, 27, 100000}).Draw(rt, "vestend")
 			n := rapid.IntRange(1, 2).Draw(rt, "nsigners")
 			for i := 0; i < n; i++ {
 				c.Signers = append(c.Signers, rapid.SampledFrom(pool).Draw(rt, "signer"))
